@@ -9,6 +9,7 @@ before the repair (`Variant.current`) deadlocks.
 -/
 import BaizeVerif.Lemmas.Stream
 import BaizeVerif.Lemmas.StreamAsgi
+import BaizeVerif.Lemmas.StreamWsgi
 
 namespace Baize.Stream
 
@@ -714,3 +715,33 @@ example :
     s.mpc = .done ∧ s.rpc = .done ∧ s.cleanups = 1 ∧ s.q = .empty ∧ s.delivered = [0] := by decide
 
 end Baize.StreamAsgi
+
+/-! ## WSGI `StreamResponse` (`yield from`) -/
+
+namespace Baize.StreamWsgi
+
+/-- **C06 (WSGI StreamResponse)** for every producer length `n`, ending `fails` and every number `k` of chunks the
+server reads before it closes the iterable: the chunks delivered are exactly the first `min n k` items, in
+order; the producer was stepped exactly that often (the close returns WITHOUT another producer step); the response
+iterable is finished; a producer that was started is finished and its cleanup ran exactly once, a producer that
+was never started (the server closed at once) ran no code at all; and the call ends by the close iff `k ≤ n`,
+by the producer's own exception iff it fails and the server read past the end, normally otherwise. -/
+theorem ws_stream_terminates_and_releases (n k : Nat) (fails : Bool) :
+    let res := run n k fails
+    res.1.delivered = List.range (min n k) ∧ res.1.gen.produced = min n k ∧ res.1.outerDone = true ∧
+    (res.1.gen.started = true → res.1.gen.finished = true ∧ res.1.gen.cleanups = 1) ∧
+    (res.1.gen.started = false → res.1.gen.cleanups = 0 ∧ min n k = 0) ∧
+    (res.2 = .closed ↔ k ≤ n) ∧ (res.2 = .raised ↔ (n < k ∧ fails = true)) ∧
+    (res.2 = .ended ↔ (n < k ∧ fails = false)) := by
+  have h := serve_spec n fails k 0 _ (open_init n fails)
+  simp only [Nat.zero_add] at h
+  obtain ⟨hf, h1, h2, h3⟩ := h
+  exact ⟨hf.hd, hf.hp, hf.hod, hf.hrel, hf.hun, h1, h2, h3⟩
+
+example : (run 3 1 false).1.delivered = [0] ∧ (run 3 1 false).1.gen.cleanups = 1 ∧ (run 3 1 false).2 = .closed := by
+  decide
+example : (run 3 0 true).1.gen.started = false ∧ (run 3 0 true).1.gen.cleanups = 0 := by decide
+example : (run 2 5 true).2 = .raised ∧ (run 2 5 true).1.delivered = [0, 1] ∧ (run 2 5 true).1.gen.cleanups = 1 := by
+  decide
+
+end Baize.StreamWsgi
